@@ -27,6 +27,16 @@ type Opts struct {
 	JSONSafe     bool
 	MaxLen       int // maximum container length (default 4)
 	IfaceDynamic []reflect.Type
+	NoRepeat     bool // do not bias towards repeating earlier strings / interface values
+	pool         *pool
+}
+
+// pool remembers values drawn earlier in the same case so that later positions can repeat
+// them (repeated strings, byte strings, times and shared pointers are what reference mode
+// turns into back-references).
+type pool struct {
+	strings []string
+	ifaces  []reflect.Value
 }
 
 func (o Opts) maxLen() int {
@@ -251,6 +261,9 @@ var DefaultDynamic = []reflect.Type{
 
 // Gen draws a value of type t. depth bounds container nesting.
 func Gen(rt *rapid.T, t reflect.Type, depth int, o Opts) reflect.Value {
+	if o.pool == nil && !o.NoRepeat {
+		o.pool = &pool{}
+	}
 	v := reflect.New(t).Elem()
 	fill(rt, v, depth, o)
 	return v
@@ -347,7 +360,15 @@ func fill(rt *rapid.T, v reflect.Value, depth int, o Opts) {
 		}
 		v.SetComplex(complex(re, im))
 	case reflect.String:
-		v.SetString(genString(rt, o))
+		if o.pool != nil && len(o.pool.strings) > 0 && rapid.IntRange(0, 3).Draw(rt, "srepeat") == 0 {
+			v.SetString(rapid.SampledFrom(o.pool.strings).Draw(rt, "sprev"))
+			return
+		}
+		sv := genString(rt, o)
+		if o.pool != nil && len(sv) > 1 && len(o.pool.strings) < 8 {
+			o.pool.strings = append(o.pool.strings, sv)
+		}
+		v.SetString(sv)
 	case reflect.Slice:
 		if t.Elem().Kind() == reflect.Uint8 {
 			b := genBytes(rt)
@@ -432,6 +453,10 @@ func fill(rt *rapid.T, v reflect.Value, depth int, o Opts) {
 		if rapid.IntRange(0, 6).Draw(rt, "niliface") == 0 {
 			return
 		}
+		if o.pool != nil && len(o.pool.ifaces) > 0 && rapid.IntRange(0, 3).Draw(rt, "irepeat") == 0 {
+			v.Set(rapid.SampledFrom(o.pool.ifaces).Draw(rt, "iprev"))
+			return
+		}
 		dyn := o.IfaceDynamic
 		if dyn == nil {
 			dyn = DefaultDynamic
@@ -449,6 +474,9 @@ func fill(rt *rapid.T, v reflect.Value, depth int, o Opts) {
 		dv := Gen(rt, dt, depth-1, o)
 		if (dt.Kind() == reflect.Ptr || dt.Kind() == reflect.Map || dt.Kind() == reflect.Slice) && dv.IsNil() {
 			return // a typed nil inside an interface is written as null and comes back as nil interface
+		}
+		if o.pool != nil && len(o.pool.ifaces) < 6 {
+			o.pool.ifaces = append(o.pool.ifaces, dv)
 		}
 		v.Set(dv)
 	case reflect.Struct:
